@@ -146,7 +146,7 @@ def run(ctx):
     # ---------------------------------------------------------------- runner branches are siblings
     for name in ("sim_runner", "market_sim_runner"):
         f = ctx.prog.free_fn("bourse_de", name)
-        q = m.q(f)
+        q = m.qi(f)    # a private per-step helper (`advance(env, agents, rng)`) is spliced in
         arms = {}
         for c in q.calls():
             if c.name in ("update", "step"):
@@ -164,8 +164,6 @@ def run(ctx):
                 u = [c for c in cs if c.name == "update"][0]
                 s = [c for c in cs if c.name == "step"][0]
                 ctx.check(q.body.dominates(u.b, s.b), "runner", "%s|order|%s" % (name, key), u.loc(), "agents update before the environment steps (progress=%s)" % key)
-        # range
-        rng_ok = sum(1 for x in walk(q.ev.call_expr(q.calls("update")[0].b)) if False) == 0
     # ---------------------------------------------------------------- lock pins
     for crate, ver in (("rand", "0.8.5"), ("rand_xoshiro", None), ("rand_distr", None)):
         ents = lock_entry(ctx.repo, crate)
@@ -193,7 +191,7 @@ def own_generator(m, q, a, allow_local_seeded=False):
                     if cq.fn.path == f.path and cap in cnames:
                         return own_generator(m, m.q(g), ops[cnames.index(cap)], allow_local_seeded)
             return False, "?"
-        if re.fullmatch(r"&mut [A-Z]\w?", ty) and not names:
+        if (re.fullmatch(r"&mut [A-Z]\w?", ty) or (ty.startswith("&mut ") and ("Xoroshiro" in ty or ty.split("::")[-1].split("<")[0].endswith("Rng")))) and not names:
             return True, "its own generator parameter `%s`" % root[2]
         if "StepEnv" in ty and names and names[-1] == "rng":
             return True, "the environment's seeded generator self.rng"
